@@ -172,16 +172,17 @@ def print_rule_pattern(rule, rng, defs, posix=False):
     return s
 
 
-def make_spec(prog, rng, options=None, actions=None, extra_top="", epilogue=None, prologue=None):
+def make_spec(prog, rng, options=None, actions=None, extra_top="", epilogue=None, prologue=None, backend='nr'):
     """Returns the text of a .l file for the program.  actions[i] overrides the
     default action `tok(i+1);` of rule i."""
+    import backends
     defs = {}
     pats = [print_rule_pattern(r, rng, defs, posix=prog.get('posix', False)) for r in prog['rules']]
     nrules = len(prog['rules'])
     out = []
-    opts = ["noyywrap", "nounput", "noinput"] + list(options or [])
+    opts = ["noyywrap", "nounput", "noinput"] + backends.BACKENDS[backend]['options'] + list(options or [])
     out.append("%option " + " ".join(opts))
-    out.append((prologue or PROLOGUE_NR) % {"defrule": nrules + 1, "extra_top": extra_top})
+    out.append(prologue or backends.prologue(backend, nrules + 1, extra_top))
     for name in defs:
         out.append("%s %s" % (name, defs[name]))
     for i, (name, excl) in enumerate(prog.get('scs', [])):
@@ -191,7 +192,7 @@ def make_spec(prog, rng, options=None, actions=None, extra_top="", epilogue=None
         act = actions[i] if actions and actions.get(i) is not None else "tok(%d);" % (i + 1)
         out.append("%s\t{ %s }" % (p, act))
     out.append("%%")
-    out.append(epilogue or EPILOGUE_NR)
+    out.append(epilogue or backends.epilogue(backend, nrules + 1))
     return "\n".join(out) + "\n"
 
 
@@ -230,11 +231,9 @@ def run_flex(flex, lfile, outfile, opts, cwd, timeout=60):
     return run(cmd, cwd=cwd, timeout=timeout)
 
 
-def compile_c(src, exe, cwd, extra=None, cxx=False, timeout=120):
-    if cxx:
-        cmd = ["g++", "-std=gnu++17", "-w", "-O0", "-o", exe, src]
-    else:
-        cmd = ["gcc", "-std=gnu11", "-w", "-O0", "-o", exe, src]
+def compile_c(src, exe, cwd, extra=None, backend='nr', timeout=120):
+    import backends
+    cmd = list(backends.BACKENDS[backend]['cc']) + ["-o", exe, src]
     if extra:
         cmd[1:1] = extra
     return run(cmd, cwd=cwd, timeout=timeout)
